@@ -4,7 +4,7 @@
    (lo <= value < hi for lo < hi) is the hypothesis gen_in_range, NOT an axiom.
    Property theorems only; proofs in proofs/EvalProof.v. *)
 From DTR Require Import Prelude I64 Ast FramedMap Parser Eval.
-From DTR.proofs Require Import EvalProof.
+From DTR.proofs Require Import EvalProof LiteralProof.
 Local Open Scope Z_scope.
 
 (* random(e): evaluate e; below 2 an error and no draw; otherwise exactly ONE draw, from [1, n) *)
@@ -48,9 +48,49 @@ Theorem C17_reset_restores_initial_generator : forall c outs,
   crng (ctx_reset_random_seed c) = crng (ctx_new outs).
 Proof. exact reset_restores_initial_generator. Qed.
 
+(* "Apart from these draws, a program using random behaves exactly as if the drawn values had been written
+   as literals": literalize G c e rng is e with exactly the random(..) calls that the evaluation performs
+   (and that draw) replaced by the value drawn; it is a literal substitution instance of e ... *)
+Theorem C17_literalize_is_substitution : forall G c e rng, lit_subst e (fst (literalize G c e rng)).
+Proof. exact literalize_is_substitution. Qed.
+Theorem C17_lit_subst_meaning : forall e e', lit_subst e e' <-> LitSubst e e'.
+Proof. exact lit_subst_iff_LitSubst. Qed.
+(* ... and the literal expression gives the SAME result (value, error) with ANY generator and draws nothing *)
+Theorem C17_as_if_literals : forall G c e rng r rng',
+  eval G c e rng = (r, rng') ->
+  forall G' rng0, eval G' c (fst (literalize G c e rng)) rng0 = (r, rng0).
+Proof. exact as_if_literals. Qed.
+(* exactly one literal per draw *)
+Theorem C17_one_literal_per_draw : forall G c e rng,
+  exists l, snd (eval G c e rng) = l ++ rng /\
+    List.length l = List.length (snd (literalize G c e rng)).
+Proof. exact one_literal_per_draw. Qed.
+(* whole data rows *)
+Theorem C17_row_as_if_literals : forall G G' data c,
+  snd (row_eval G' c (literalize_row G c data)) = snd (row_eval G c data) /\
+  fst (row_eval G' c (literalize_row G c data)) = c.
+Proof. exact row_as_if_literals_same_ctx. Qed.
+
+(* replay: the values drawn are a function of the generator, the history at the start and the sequence of
+   bounds only ... *)
+Theorem C17_drawn_values_are_draws : forall G c e rng,
+  exists l, snd (eval G c e rng) = l ++ rng /\
+    snd (literalize G c e rng) = draws G rng (map snd (rev l)).
+Proof. exact drawn_values_are_draws. Qed.
+(* ... so two evaluations that start from the freshly (re)seeded generator and draw with the same sequence of
+   bounds draw the same values *)
+Theorem C17_replay_after_reset : forall G c1 e1 c2 e2 l1 l2,
+  snd (eval G c1 e1 []) = l1 -> snd (eval G c2 e2 []) = l2 ->
+  map snd (rev l1) = map snd (rev l2) ->
+  snd (literalize G c1 e1 []) = snd (literalize G c2 e2 []).
+Proof. exact replay_after_reset. Qed.
+
 Check C17_in_range.
 Example C17_example : gen_in_range (fun _ r => fst r) /\
   eval (fun _ r => fst r) (ctx_new []) (EFunc name_random [ENum 10]) [] = (Ok 1, [(1, 10)]).
 Proof. split; [intros h lo hi H; simpl; lia | reflexivity]. Qed.
 Print Assumptions C17_in_range.
 Print Assumptions C17_history_only_grows.
+Print Assumptions C17_as_if_literals.
+Print Assumptions C17_replay_after_reset.
+Print Assumptions C17_row_as_if_literals.
